@@ -10,6 +10,7 @@ package reservation
 //         K  then K live steps  kind id    1 nominate+Reserve 2 Unreserve 3 PreBind+bind+update 4 delete
 //                                          5 update(same) 7 terminate 8 update event of reservation id
 //         S  then S replay events  kind id  1 Add(pod) 2 Update(pod,pod) 3 Update(pending,pod) 6 Add(reservation id)
+//                                          8 Add(pod annotated but without nodeName), Update(that, pod): the cut between PreBind patch and Bind
 // observable after every live step: for reservation 1..NR of the LIVE plugin: known allocatedCPU
 // allocatedMem and one 0/1 per pod uid (in AssignedPods); then the same of a FRESH plugin instance fed with the stored objects
 // (pods carrying the reservation-allocated annotation written by the real PreBind).
@@ -214,6 +215,17 @@ func vtC19RsvExec(in []int64) []int64 {
 				fresh.pods.OnUpdate(stored[id].DeepCopy(), stored[id].DeepCopy())
 			case 3:
 				fresh.pods.OnUpdate(pending[id].DeepCopy(), stored[id].DeepCopy())
+			case 8:
+				if stored[id].Spec.NodeName != "" {
+					ann := stored[id].DeepCopy() // as listed between the PreBind patch and the Bind
+					ann.Spec.NodeName = ""
+					ann.Status.Phase = ""
+					fresh.pods.OnAdd(ann, true)
+					fresh.pods.OnUpdate(ann.DeepCopy(), stored[id].DeepCopy())
+				} else {
+					fresh.pods.OnAdd(stored[id].DeepCopy(), true)
+				}
+				seen[id] = true
 			}
 		}
 		if rsvFirst != 0 {
@@ -300,6 +312,9 @@ func vtC19RsvGen(r *rand.Rand, i int) (string, []int64) {
 	}
 	for k := r.Intn(4); k > 0; k-- {
 		script = append(script, [2]int64{int64(1 + r.Intn(3)), int64(1 + r.Intn(np))})
+	}
+	for k := r.Intn(3); k > 0; k-- {
+		script = append(script, [2]int64{8, int64(1 + r.Intn(np))})
 	}
 	if style == "any-order" {
 		for q := 1; q <= nr; q++ {
